@@ -108,11 +108,16 @@ def noz_compose(check, proj):
         user = [OpaqueFn("U%d" % i) if on else None for i, on in enumerate(pattern)]
         it.ev.base_init_calls.clear()
         tag = "".join("1" if x else "0" for x in pattern)
+        before = list(user)
         try:
             it.call_function(init, [ctx.selfobj, OpaqueFn("A", positive=True), ctx.selfobj.attrs["gamma"], user if any(pattern) else None])
         except AnalysisError as e:
             check.undecided("NOZ-COMPOSE", init.qualname, "constructor not interpretable: %s" % e, loc)
             return
+        if len(user) != len(before) or any(a is not b for a, b in zip(user, before)):
+            check.violation("NOZ-COMPOSE", init.qualname, "the constructor writes the composed (user + geometric) sources back into the CALLER's source list: a second model built from the same list gets the first nozzle's geometric sources added again, and None entries are no longer empty", loc, key="caller-list")
+        else:
+            check.ok("NOZ-COMPOSE", "%s [user sources %s]" % (init.qualname, tag), "the caller's source list is left untouched", loc, nontrivial=False)
         calls = [c for c in it.ev.base_init_calls if "source" in c[2]]
         if len(calls) != 1:
             check.undecided("NOZ-COMPOSE", init.qualname, "source list passed to the base constructor not found", loc)
